@@ -143,7 +143,9 @@ def run(prop, tier, seed, rep):
                 inp["prefix"] = rng.choice((1, 5, 14))
         # the frame sits far into a long stream (absolute positions beyond 2^31, 2^32, 2^33)
         if rng.random() < 0.15:
-            inp["base"] = rng.choice(([1, 2147483600], [2, 0], [2, 17], [5, 123], [1023, 99]))
+            # ... including the positions from which the frame straddles a multiple of 2^32
+            inp["base"] = rng.choice(([1, 2147483600], [2, 0], [2, 17], [5, 123], [1023, 99], [1, 2147483647], [1, 2147483646], [1, 2147483645],
+                                      [1, 2147483644], [1, 2147483641], [3, 2147483647], [3, 2147483645], [1, 2147483635]))
             inp["tag"] = "far"
         # a failure that is not transient: one read (script entry -1) or the n-th seek fails for good
         if rng.random() < 0.1:
